@@ -801,6 +801,11 @@ func (c *FCtx) execLoop(st *State, lp *loopParts) []Flow {
 		}
 		return out
 	}
+	if c.con != nil && c.con.Unrolls != nil {
+		if k, ok := c.con.Unrolls[fmt.Sprintf("%s#%d", c.curFI.Key, ord)]; ok {
+			return c.unrollLoop(st, lp, iter, k, ord)
+		}
+	}
 	if spec == nil {
 		fail("loop %d of %s has no invariant in the contract file", ord, c.curFunc)
 	}
@@ -1150,4 +1155,32 @@ func (c *FCtx) abstractTerms(hyps []*Term, goal *Term, cands []*Term) ([]*Term, 
 		out[i] = walk(h)
 	}
 	return out, walk(goal)
+}
+
+// unrollLoop executes at most k iterations explicitly (lemma functions); that k suffices is an obligation.
+func (c *FCtx) unrollLoop(st *State, lp *loopParts, iter func(s *State) []Flow, k int, ord int) []Flow {
+	var out []Flow
+	cur := []*State{st}
+	for it := 0; it <= k; it++ {
+		var next []*State
+		for _, s := range cur {
+			for _, f := range iter(s) {
+				switch {
+				case f.kind == fNormal:
+					next = append(next, f.st)
+				case f.kind == fBreak && (f.label == "" || f.label == lp.label):
+					out = append(out, Flow{st: f.st})
+				default:
+					out = append(out, f)
+				}
+			}
+		}
+		cur = next
+		if it == k {
+			for _, s := range cur {
+				c.oblige(s, "unroll", fmt.Sprintf("loop[%d]/unroll-bound %d suffices", ord, k), False(), c.eng.pos(lp.node))
+			}
+		}
+	}
+	return out
 }
